@@ -46,11 +46,19 @@ type Obs struct {
 	Stack  []any
 	Notifs []Notif
 	Layer  *dao.Simple // successor layer on HALT (nil on FAULT); layered executor only
+	iter   []bool      // which stack items are iterators (a chain's execution log cannot expand them)
 }
 
 func (o *Obs) Digest() string {
 	var sb strings.Builder
-	fmt.Fprintf(&sb, "halt=%v fault=%q stack=%v notifs=[", o.Halt, faultCore(o.Fault), o.Stack)
+	st := make([]any, len(o.Stack))
+	for i, v := range o.Stack {
+		st[i] = v
+		if (i < len(o.iter) && o.iter[i]) || v == "?*stackitem.Interop" {
+			st[i] = "ITERATOR"
+		}
+	}
+	fmt.Fprintf(&sb, "halt=%v fault=%q stack=%v notifs=[", o.Halt, faultCore(o.Fault), st)
 	for _, n := range o.Notifs {
 		sb.WriteString(n.String())
 		sb.WriteString(";")
@@ -82,10 +90,12 @@ func Script(h util.Uint160, method string, args ...any) []byte {
 func (w *World) mkTx(scr []byte, signers []util.Uint160) *transaction.Transaction {
 	tx := transaction.New(scr, 0)
 	tx.Signers = []transaction.Signer{{Account: w.Payer.Hash, Scopes: transaction.None}}
+	seen := map[util.Uint160]bool{w.Payer.Hash: true}
 	for _, s := range signers {
-		if s == w.Payer.Hash {
+		if seen[s] {
 			continue
 		}
+		seen[s] = true
 		tx.Signers = append(tx.Signers, transaction.Signer{Account: s, Scopes: transaction.Global})
 	}
 	return tx
@@ -114,6 +124,8 @@ func (w *World) Run(parent *dao.Simple, height uint32, ts uint64, scr []byte, si
 	o.Layer = ic.DAO
 	for _, it := range ic.VM.Estack().ToArray() {
 		o.Stack = append(o.Stack, Norm(it))
+		_, isI := it.(*stackitem.Interop)
+		o.iter = append(o.iter, isI)
 	}
 	o.Notifs = maskTxHash(w.normNotifs(ic.Notifications), tx.Hash())
 	return o
